@@ -260,6 +260,44 @@ def run(ctx) -> None:
     check_sutra(Renamed(ctx, {'T9': 'O9'}, key_filter=lambda k: True))
     from rules.helper_contract import run_shared
     run_shared(ctx, None, 'O10', 5)
+    ctx.rule('O12', 'every correlation-based surface-plant cost (Cplant and its heat / electricity parts) carries the Surface Plant Capital Cost Adjustment '
+                    'Factor as a factor, in every end-use arm (sibling agreement): plant cost and the heat/electricity split respond to the factor the '
+                    'same way everywhere')
+    from gxstat.inline import inline_sequential as _inls
+    from gxstat.flowutil import guards_of as _gof
+    _n12 = 0
+    for _cn, _suffix in (('Economics', 'geophires_x/Economics.py'), ('SBTEconomics', 'geophires_x/SBTEconomics.py')):
+        if not ctx.repo.has_module(_suffix):
+            continue
+        _calc = ctx.repo.method(_cn, 'Calculate', _suffix)
+        for _st in ast.walk(_calc.node):
+            if not (isinstance(_st, ast.Assign) and len(_st.targets) == 1):
+                continue
+            _t = norm(_st.targets[0])
+            if _t not in ('self.Cplant.value', 'self.CAPEX_cost_heat_plant', 'self.CAPEX_cost_electricity_plant'):
+                continue
+            _v = _inls(_st.value, _st)
+            _txt = norm(_v)
+            _facs = []
+
+            def _flat(e):
+                if isinstance(e, ast.BinOp) and isinstance(e.op, ast.Mult):
+                    _flat(e.left)
+                    _flat(e.right)
+                else:
+                    _facs.append(e)
+            _flat(_v)
+            _lits = [x for x in _facs if isinstance(x, ast.Constant) and isinstance(x.value, float)]
+            if len(_lits) < 2 or 'ccplantfixed' in _txt or 'self.Cplant.value' in _txt or 'self.CAPEX_cost' in _txt:
+                continue        # a supplied figure, a split of the total, or a sum of parts: not a correlation
+            _n12 += 1
+            _has = any(norm(x).endswith('ccplantadjfactor.value') for x in _facs)
+            ctx.check(_has, 'O12', f'{_cn}.Calculate/{_t}@{"+".join(sorted(set(norm(g) for g, _ in _gof(_st, _calc.node)))[-1:])[:60]}/carries-adjustment-factor',
+                      f'{_calc.module.rel}:{_st.lineno}',
+                      f'`{_t} = {_txt[:80]}` is a cost correlation without the factor ccplantadjfactor.value that its sibling arms carry: in this arm '
+                      f'the plant cost (and with it the heat/electricity cost split, LCOE and LCOH) does not follow the adjustment factor',
+                      fact='... x ccplantadjfactor.value x ...')
+    ctx.floor('O12', _n12, 6, 'plant cost correlation assignments')
     ctx.rule('O11', 'the gradients a run integrates are its own: no list-valued reservoir declaration argument is shared between instances - otherwise '
                     'the response of bottom-hole temperature to depth or gradient depends on which runs came before (C08 P3)')
     from gxstat.runner import Renamed as _Ren
